@@ -242,7 +242,7 @@ func (e *ev) protectedFunc(fn *ssa.Function, prot map[*ssa.Function]*recoverFram
 	for _, user := range e.p.Funcs {
 		core.AllInstrs(user, func(x ssa.Instruction) {
 			// closure creation
-			if mc, ok := x.(*ssa.MakeClosure); ok && mc.Fn == ssa.Value(fn) {
+			if mc, ok := x.(*ssa.MakeClosure); ok && (mc.Fn == ssa.Value(fn) || isBoundWrapperOf(mc.Fn, fn)) {
 				for _, ref := range *mc.Referrers() {
 					uses++
 					ok2, w := e.protectedUse(ref, mc, prot, depth)
@@ -405,3 +405,9 @@ func (e *ev) cellCallsProtected(al *ssa.Alloc, prot map[*ssa.Function]*recoverFr
 }
 
 var _ = types.Identical
+
+// isBoundWrapperOf: v is the synthetic bound-method wrapper of method fn (the closure behind `x.fn` used as a value).
+func isBoundWrapperOf(v ssa.Value, fn *ssa.Function) bool {
+	w, ok := v.(*ssa.Function)
+	return ok && w != fn && w.Synthetic != "" && unbound(w) == fn
+}
